@@ -1506,6 +1506,39 @@ class Model:
         """``fd`` and its private callees"""
         return [fd] + self.private_callees(fd, depth)
 
+    def handed_to(self, fd, name, depth=2):
+        """[(function, local name)]: ``fd`` itself with ``name``, and every private
+        callee that receives the local ``name`` of ``fd`` as an argument, with the
+        parameter it arrives in (transitively).  'The table is built here and
+        consulted in a helper that is handed it' is then the same as consulting it
+        here."""
+        out, seen = [(fd, name)], {(id(fd), name)}
+        frontier = [(fd, name, 0)]
+        callees = {f.name: f for f in self.private_callees(fd, depth)}
+        while frontier:
+            f, nm, d = frontier.pop()
+            if d >= depth:
+                continue
+            for call in ast.walk(f):
+                if not isinstance(call, ast.Call):
+                    continue
+                cn = call.func.id if isinstance(call.func, ast.Name) else (
+                    call.func.attr if isinstance(call.func, ast.Attribute)
+                    and isinstance(call.func.value, ast.Name)
+                    and call.func.value.id in ("self", "cls") else None)
+                tgt = callees.get(cn)
+                if tgt is None or tgt is f:
+                    continue
+                bind = self._bind_args(call, tgt)
+                if bind is None:
+                    continue
+                for q, e in bind.items():
+                    if isinstance(e, ast.Name) and e.id == nm and (id(tgt), q) not in seen:
+                        seen.add((id(tgt), q))
+                        out.append((tgt, q))
+                        frontier.append((tgt, q, d + 1))
+        return out
+
     def walk_scope(self, fd, depth=2):
         for f in self.scope(fd, depth):
             yield from ast.walk(f)
